@@ -42,7 +42,7 @@ STD_OPTIONS = ('SKIP', 'ELLIPSIS', 'NORMALIZE_WHITESPACE', 'IGNORE_EXCEPTION_DET
 
 
 def run(ctx):
-    for fn in (r1_prefix, r2_option_table, r3_polarity, r4_bare_continuation, r5_old_style_single, r6_repl_display, r7_expected_tracebacks):
+    for fn in (r1_prefix, r2_option_table, r3_polarity, r4_bare_continuation, r5_old_style_single, r6_repl_display, r7_expected_tracebacks, r8_future_flags_after_module_globals):
         ctx.rep.rule(fn, ctx)
 
 
@@ -280,6 +280,30 @@ def r4_bare_continuation(ctx):
            'starts the want (an ellipsis want directly under an example)' if ok_w else "a bare '...' directly under a prompt line is not a want", anchor=LABEL)
 
 
+def r8_future_flags_after_module_globals(ctx):
+    """MUST-PASS / ordering: a doctest of a module that says `from __future__ import annotations` (or any other feature) is compiled with that
+    feature, like the standard doctest module does: the compile flags are extracted from the namespace AFTER the globals of the module were
+    put into it -- extracted before, the feature objects are not there yet and the flags are always 0"""
+    rep = ctx.rep
+    q = 'xdoctest.doctest_example.DocTest._test_globals'
+    f = ctx.func(q)
+    g = ctx.cfg(f)
+    recv = f.node.args.args[0].arg
+    ups = [n for n in g.nodes if not n.dup for c in node_calls(n) if isinstance(c.func, ast.Attribute) and c.func.attr == 'update' and c.args and
+           isinstance(c.args[0], ast.Attribute) and c.args[0].attr == '__dict__' and isinstance(c.args[0].value, ast.Attribute) and c.args[0].value.attr == 'module']
+    # readers of the feature flags: the extraction helper, or a written-out loop over __future__ feature names
+    reads = [n for n in g.nodes if not n.dup for c in node_calls(n) if isinstance(c.func, ast.Attribute) and c.func.attr == '_extract_future_flags']
+    reads += [n for n in g.nodes if not n.dup and n.kind == 'for' and any(isinstance(x, ast.Attribute) and x.attr == 'all_feature_names' for x in ast.walk(n.ast.iter))]
+    rep.floor('C20.R8', 'module globals copied into the test namespace', len(ups), 1)
+    rep.floor('C20.R8', 'reads of the __future__ features of the namespace', len(reads), 1)
+    for rn in reads:
+        wit = graph.must_pass([g.entry], lambda x, rn=rn: x is rn, through=ups, efilter=graph.normal_only)
+        rep.ob('C20.R8', ctx.loc(f, rn.ast), 'feature flags read after the module globals are in the namespace', wit is None,
+               'every path to the extraction passes the update with the module\'s globals' if wit is None else
+               'the __future__ flags are extracted before the module\'s globals are copied into the namespace: the feature objects are not there yet, the flags are always 0, and a '
+               'doctest of a module with `from __future__ import annotations` is compiled without it (it passes under the standard doctest module and fails here)', anchor=q)
+
+
 def r5_old_style_single(ctx):
     rep = ctx.rep
     f = ctx.func(LOC)
@@ -382,6 +406,7 @@ DI = 'xdoctest/directive.py'
 PA = 'xdoctest/parser.py'
 DE = 'xdoctest/doctest_example.py'
 VARIANTS = [
+    fire('future-flags-extracted-before-the-module-globals', 'C20.R8', ('xdoctest/doctest_example.py', "            test_globals.update(self.module.__dict__)\n", "            compileflags = self._extract_future_flags(test_globals)\n            test_globals.update(self.module.__dict__)\n")),
     fire('doctest-prefix-dropped', 'C20.R1', (DI, "    r'x?doctest:\\s*' + named('style2', '.*'),\n", "    r'xdoctest:\\s*' + named('style2', '.*'),\n")),
     fire('prefix-case-sensitive', 'C20.R1', (DI, "DIRECTIVE_RE = re.compile('|'.join(DIRECTIVE_PATTERNS), flags=re.IGNORECASE)\n", "DIRECTIVE_RE = re.compile('|'.join(DIRECTIVE_PATTERNS))\n")),
     fire('option-renamed', 'C20.R2', (DI, "    'IGNORE_EXCEPTION_DETAIL': False,\n", "    'IGNORE_EXCEPTION_DETAILS': False,\n")),
